@@ -35,7 +35,7 @@ gvars == <<st, hist>>
 
 Op(a, i, w, c, k) == [a |-> a, i |-> i, w |-> w, c |-> c, k |-> k]
 
-ActSeq  == <<"create", "newaddr", "export", "impks", "impmn", "restart", "chpub", "sign", "getmn", "remove">>
+ActSeq  == <<"create", "newaddr", "export", "impks", "impmn", "restart", "chpub", "sign", "getmn", "remove", "hold", "lock">>
 SetToSeq(S) == CHOOSE s \in [1..Cardinality(S) -> S] : Range(s) = S
 InstSeq == SetToSeq(Inst)
 WalSeq  == SetToSeq(Wal)
@@ -58,7 +58,9 @@ Cands(S, step) ==
       Pick(Ok(S, {Op("chpub", i, "", q, 0) : i \in Inst, q \in PubToks})),
       Pick(Ok(S, {Op("sign", i, w, c, k) : i \in Inst, w \in Wal, c \in GCands, k \in 0..(MaxAddr - 1)})),
       Pick(Ok(S, {Op("getmn", i, w, c, 0) : i \in Inst, w \in Wal, c \in GCands})),
-      Pick(Ok(S, {Op("remove", i, w, c, 0) : i \in Inst, w \in Wal, c \in GCands}))
+      Pick(Ok(S, {Op("remove", i, w, c, 0) : i \in Inst, w \in Wal, c \in GCands})),
+      Pick(Ok(S, {Op("hold", i, w, "right", k) : i \in Inst, w \in Wal, k \in 0..(MaxAddr - 1)})),
+      Pick({o \in Ok(S, {Op("lock", i, "", "-", 0) : i \in Inst}) : S.inst[o.i].held # {}})
     }
 
 Allowed(S, op) == op.a \in GActs /\ Usable(S, op)
